@@ -219,11 +219,12 @@ Definition old_cfg : cfg := {| c_negmin_panics := true; c_key_unchecked := true;
 Definition bytes_okb (b : bytes) : bool := forallb (fun x => x <? 256) b.
 Fixpoint keys_nodupb (ks : list md) : bool :=
   match ks with [] => true | k :: r => negb (existsb (md_eqb k) r) && keys_nodupb r end.
+Definition pairs_all (fk fv : md -> bool) : list (md * md) -> bool :=
+  fix go (l : list (md * md)) : bool :=
+    match l with [] => true | (k, v) :: r => fk k && fv v && go r end.
 Fixpoint md_wf (m : md) : bool :=
   match m with
-  | MMap l => keys_nodupb (List.map fst l) &&
-              (fix go (l : list (md * md)) : bool :=
-                 match l with [] => true | (k, v) :: r => md_wf k && md_wf v && go r end) l
+  | MMap l => keys_nodupb (List.map fst l) && pairs_all md_wf md_wf l
   | MList l => forallb md_wf l
   | MInt _ => true
   | MBytes b => bytes_okb b && (blen b <=? MD_MAX_LEN)
@@ -236,8 +237,7 @@ Definition key_text (k : md) : bytes := match k with MText s => s | _ => [] end.
 Fixpoint md_sorted (m : md) : bool :=
   match m with
   | MMap l => keys_ascending (List.map (fun kv => (key_text (fst kv), snd kv)) l) &&
-              (fix go (l : list (md * md)) : bool :=
-                 match l with [] => true | (_, v) :: r => md_sorted v && go r end) l
+              pairs_all (fun _ => true) md_sorted l
   | MList l => forallb md_sorted l
   | _ => true
   end.
@@ -271,12 +271,7 @@ Fixpoint nf_plain (sc : schema) (j : json) : bool :=    (* sc = NoConv or Basic 
   | JInt z => in_range i64_min u64_max z
   | JStr s => match sc with Basic => basic_str_nf s | _ => blen s <=? MD_MAX_LEN end
   | JArr l => forallb (nf_plain sc) l
-  | JObj l => (fix go (l : list (bytes * json)) : bool :=
-                 match l with
-                 | [] => true
-                 | (k, v) :: r => (match sc with Basic => basic_key_nf k | _ => blen k <=? MD_MAX_LEN end)
-                                  && nf_plain sc v && go r
-                 end) l
+  | JObj l => obj_all (fun k => match sc with Basic => basic_key_nf k | _ => blen k <=? MD_MAX_LEN end) (nf_plain sc) l
   end.
 
 Fixpoint json_nodupb (l : list json) : bool :=
@@ -294,13 +289,7 @@ Fixpoint nf_detailed (j : json) : bool :=
         match v with
         | JArr es =>
             json_nodupb (List.map (fun e => match e with JObj ((_, kj) :: _) => kj | _ => JNull end) es) &&
-            (fix go (es : list json) : bool :=
-               match es with
-               | [] => true
-               | JObj [(a, kj); (b, vj)] :: r =>
-                   bytes_eqb a k_k && bytes_eqb b k_v && nf_detailed kj && nf_detailed vj && go r
-               | _ => false
-               end) es
+            entries_all k_k k_v nf_detailed es
         | _ => false
         end
       else false
@@ -326,12 +315,7 @@ Fixpoint dom_plain (sc : schema) (j : json) : bool :=
   | JInt _ | JNegZero | JFloat _ => num_in_schema j
   | JStr s => match sc with Basic => basic_str_dom s | _ => blen s <=? MD_MAX_LEN end
   | JArr l => forallb (dom_plain sc) l
-  | JObj l => (fix go (l : list (bytes * json)) : bool :=
-                 match l with
-                 | [] => true
-                 | (k, v) :: r => (match sc with Basic => basic_key_dom k | _ => blen k <=? MD_MAX_LEN end)
-                                  && dom_plain sc v && go r
-                 end) l
+  | JObj l => obj_all (fun k => match sc with Basic => basic_key_dom k | _ => blen k <=? MD_MAX_LEN end) (dom_plain sc) l
   end.
 Fixpoint dom_detailed (j : json) : bool :=
   match j with
@@ -344,13 +328,7 @@ Fixpoint dom_detailed (j : json) : bool :=
       else if bytes_eqb k k_map then
         match v with
         | JArr es =>
-            (fix go (es : list json) : bool :=
-               match es with
-               | [] => true
-               | JObj [(a, kj); (b, vj)] :: r =>
-                   bytes_eqb a k_k && bytes_eqb b k_v && dom_detailed kj && dom_detailed vj && go r
-               | _ => false
-               end) es
+            entries_all k_k k_v dom_detailed es
         | _ => false
         end
       else false
